@@ -20,7 +20,7 @@
 
    An event is consistent when the real verdict is "accept" exactly when all relations hold.  Used by C17 (OOD: "the verifier's
    evaluation of the same expression from an opened trace frame agrees with it") and C02 (acceptance implies the relations).     *)
-EXTENDS ToyMath, Json, IOUtils, Naturals, FiniteSets, TLC
+EXTENDS ToyMath, MerkleChain, Json, IOUtils, Naturals, FiniteSets, TLC
 
 Rec == ndJsonDeserialize(IOEnv.TRACE)
 VARIABLE l
@@ -131,8 +131,13 @@ FriEnd == LET st0 == [pos |-> E.positions, vals |-> [k \in DOMAIN E.positions |-
 \* a point of the protocol at which division by zero would occur (possible only because the field is tiny): not judged
 Degenerate == \/ Z = 0 \/ PowM(Z, E.lde) = 1 \/ PowM(DivM(Z, E.offset), E.lde) = 1 \/ PowM(DivM(GZ, E.offset), E.lde) = 1
               \/ (E.lagrange /\ \E i \in 1..(V + 1) : PowM(DivM(LagPts[i], E.offset), E.lde) = 1)
-ModelStage == IF ~ShapeOK THEN "shape" ELSE IF ~CoeffsOK THEN "coefficients" ELSE IF Degenerate THEN "degenerate"
-              ELSE IF ~OodOK THEN "ood" ELSE IF ~DeepCoeffsOK THEN "coefficients" ELSE FriEnd
+\* COMMIT: every opened row - main and auxiliary segment, composition columns, every FRI layer - is tied to its commitment by merges
+\* the verifier performed (MerkleChain.tla); judged when the algebra holds
+CommitOK == /\ Len(E.trees) = (IF Len(E.aux_rows) > 0 THEN 3 ELSE 2) + E.layers
+            /\ \A i \in DOMAIN E.trees : TreeOK(E.merges, E.trees[i])
+Algebra == IF ~ShapeOK THEN "shape" ELSE IF ~CoeffsOK THEN "coefficients" ELSE IF Degenerate THEN "degenerate"
+           ELSE IF ~OodOK THEN "ood" ELSE IF ~DeepCoeffsOK THEN "coefficients" ELSE FriEnd
+ModelStage == IF Algebra = "accept" /\ ~CommitOK THEN "commitment" ELSE Algebra
 
 Proof == /\ E.ev = "proof"
          /\ LET ms == ModelStage
